@@ -310,7 +310,9 @@ def r17_2(ctx):
     if wt is not None:
         ctx.analysed_func(wt)
         src = norm(wt.node)
-        ok = "except TypeError" in src and ("str.encode(line)" in src or "line.encode(" in src)
+        import re as _re
+
+        ok = "except TypeError" in src and bool(_re.search(r"str\.encode\(\w+(, ?'utf-?8')?\)|\w+\.encode\((?:'utf-?8')?\)", src))
         ctx.check(ok, "R17.2", wt.where(), "the sort writer encodes the line when the output handle wants bytes (BGZF output)", key_of(wt, "writer-encode"))
 
 
